@@ -37,7 +37,11 @@ def build(layout, flags, route, ns, inherit=False):
             out.append((f'f{i}', object, f))
         return out
 
+    shared_meta = {'unit': 'm'}      # user metadata: ONE dict object handed to every field() call of the class
+
     def opt_field(d, kw):
+        if route == 'make_dataclass':
+            return optree.dataclasses.field(pytree_node=d['node'], metadata=shared_meta, **kw)
         return optree.dataclasses.field(pytree_node=d['node'], **kw)
 
     def std_field(d, kw):
